@@ -116,23 +116,33 @@ type program struct {
 	Name     string `json:"name"`
 	Funcs    string `json:"funcs,omitempty"`
 	Template string `json:"template"`
+	// Template2, when set, is a second expression compiled by the same
+	// builder; goroutines with an odd index evaluate it (two DIFFERENT compiled
+	// expressions share the package-level pools)
+	Template2 string `json:"template2,omitempty"`
 }
 
 var programs = []program{
-	{"C17", "map-key", "", `{@map {0} "{0}{k}"}`},
-	{"C17", "filter-key", "", `{@filter {0} {eq {0} {k}}}`},
-	{"C17", "reduce", "", `{@reduce {0} "{0}{1}" {k}}`},
-	{"C17", "for-key", "", `{@for {k} {lt {1} 3} "{0}{k}"}`}, // (a key-dependent bound would make the optimiser's empty probe run to the iteration cap at every compile)
-	{"C17", "nested-map", "", `{@map {@split {1} ,} "{@join {@map {0} {0}{k}} +}"}`},
-	{"C17", "map-in-filter", "", `{@filter {@map {0} "{0}{k}"} {not {eq {0} {k}{k}}}}`},
-	{"C17", "slice-join", "", `{@join {@slice {0} 1} {k}}`},
-	{"C17", "in-select", "", `{@in {k} {@ a b q}}{@len {0}}{@select {0} 1}`},
-	{"C10", "funcs-two-args", "dbl {0}{0}\nwrap {1}<{dbl {0}}>{k}\n", `{wrap {k} {1}}`},
-	{"C10", "funcs-nested-map", "each {@map {0} \"{0}{1}\"}\nouter {each {0}}|{each {1}}\n", `{outer {0} {@split {1} ,}}`},
-	{"C10", "funcs-missing-arg", "pair {0}-{1}-{2}\n", `{pair {k}}{pair {n} {k}}`},
-	{"C10", "time-cached-format", "", `{timeformat {time {2}} RFC3339}`},
-	{"C10", "time-in-funcs", "ts {time {0}}\n", `{ts {2}}/{ts {2}}`},
-	{"C10", "const-fold-mixed", "", `{sumi 1 2}{upper {k}}{@len {@split "a,b" ,}}{coalesce "" {n}}`},
+	{"C17", "map-key", "", `{@map {0} "{0}{k}"}`, ""},
+	{"C17", "filter-key", "", `{@filter {0} {eq {0} {k}}}`, ""},
+	{"C17", "reduce", "", `{@reduce {0} "{0}{1}" {k}}`, ""},
+	{"C17", "for-key", "", `{@for {k} {lt {1} 3} "{0}{k}"}`, ""}, // (a key-dependent bound would make the optimiser's empty probe run to the iteration cap at every compile)
+	{"C17", "nested-map", "", `{@map {@split {1} ,} "{@join {@map {0} {0}{k}} +}"}`, ""},
+	{"C17", "map-in-filter", "", `{@filter {@map {0} "{0}{k}"} {not {eq {0} {k}{k}}}}`, ""},
+	{"C17", "slice-join", "", `{@join {@slice {0} 1} {k}}`, ""},
+	{"C17", "in-select", "", `{@in {k} {@ a b q}}{@len {0}}{@select {0} 1}`, ""},
+	{"C10", "funcs-two-args", "dbl {0}{0}\nwrap {1}<{dbl {0}}>{k}\n", `{wrap {k} {1}}`, ""},
+	{"C10", "funcs-nested-map", "each {@map {0} \"{0}{1}\"}\nouter {each {0}}|{each {1}}\n", `{outer {0} {@split {1} ,}}`, ""},
+	{"C10", "funcs-missing-arg", "pair {0}-{1}-{2}\n", `{pair {k}}{pair {n} {k}}`, ""},
+	{"C10", "time-cached-format", "", `{timeformat {time {2}} RFC3339}`, ""},
+	{"C10", "time-in-funcs", "ts {time {0}}\n", `{ts {2}}/{ts {2}}`, ""},
+	{"C10", "const-fold-mixed", "", `{sumi 1 2}{upper {k}}{@len {@split "a,b" ,}}{coalesce "" {n}}`, ""},
+	// two different expressions at once
+	{"C17", "pair/map-vs-reduce", "", `{@map {0} "{0}{k}"}`, `{@reduce {0} "{0}{1}" {k}}`},
+	{"C17", "pair/nested-map-vs-filter", "", `{@map {@split {1} ,} "{@join {@map {0} {0}{k}} +}"}`, `{@filter {0} {eq {0} {k}}}`},
+	{"C17", "pair/for-vs-map", "", `{@for {k} {lt {1} 3} "{0}{k}"}`, `{@map {0} "{@len {@split {0}{k} b}}"}`},
+	{"C10", "pair/funcs-vs-builtin", "each {@map {0} \"{0}{1}\"}\npair {0}-{1}-{2}\n", `{each {0} {k}}`, `{pair {k}}{@map {0} "{0}{n}"}`},
+	{"C10", "pair/two-funcs", "dbl {0}{0}\nwrap {1}<{dbl {0}}>{k}\n", `{wrap {k} {1}}`, `{dbl {n}}{wrap {1} {k}}`},
 }
 
 type Case struct {
@@ -141,6 +151,27 @@ type Case struct {
 	Gs       []int    `json:"goroutines"` // index of the match each goroutine evaluates
 	Vector   []int    `json:"vector"`
 	Trace    []string `json:"schedule,omitempty"`
+}
+
+func compile2(p *program, optimize bool) (a, b *expressions.CompiledKeyBuilder, err error) {
+	kb := funclib.NewKeyBuilderEx(optimize)
+	if p.Funcs != "" {
+		if _, err := funcfile.LoadDefinitions(kb, strings.NewReader(p.Funcs), "funcs"); err != nil {
+			return nil, nil, err
+		}
+	}
+	ca, cerr := kb.Compile(p.Template)
+	if cerr != nil {
+		return nil, nil, fmt.Errorf("%v", cerr)
+	}
+	if p.Template2 == "" {
+		return ca, ca, nil
+	}
+	cb, cerr := kb.Compile(p.Template2)
+	if cerr != nil {
+		return nil, nil, fmt.Errorf("%v", cerr)
+	}
+	return ca, cb, nil
 }
 
 func compile(p *program, optimize bool) (*expressions.CompiledKeyBuilder, error) {
@@ -168,6 +199,19 @@ func alone(p *program, m *match) string {
 	return c.BuildKey(&ctx{m: m})
 }
 
+// alone2: the same for the second template of a pair program.
+func alone2(p *program, m *match) string {
+	if p.Template2 == "" {
+		return alone(p, m)
+	}
+	stdlib.VerifResetPools()
+	_, c, err := compile2(p, false)
+	if err != nil {
+		panic(err)
+	}
+	return c.BuildKey(&ctx{m: m})
+}
+
 type obs struct {
 	results [][]string // per goroutine: the value of each of its evaluations
 }
@@ -178,7 +222,7 @@ func run(ex vrt.Chooser, c *Case, trace bool) (*obs, *vrt.Result) {
 	o := &obs{results: make([][]string, len(c.Gs))}
 	stdlib.VerifResetPools()
 	res := vrt.Run(ex, vrt.Options{Race: true, Trace: trace}, func() {
-		compiled, err := compile(&c.Program, c.Optimize)
+		compiledA, compiledB, err := compile2(&c.Program, c.Optimize)
 		if err != nil {
 			panic(err)
 		}
@@ -188,6 +232,10 @@ func run(ex vrt.Chooser, c *Case, trace bool) (*obs, *vrt.Result) {
 			vrt.GoNamed("eval", func() {
 				defer wg.Done()
 				cx := &ctx{m: matches[mi], yields: true}
+				compiled := compiledA
+				if gi%2 == 1 {
+					compiled = compiledB
+				}
 				for k := 0; k < evalsPerGoroutine; k++ {
 					o.results[gi] = append(o.results[gi], compiled.BuildKey(cx))
 				}
@@ -200,7 +248,13 @@ func run(ex vrt.Chooser, c *Case, trace bool) (*obs, *vrt.Result) {
 
 type finding struct{ sig, detail string }
 
-func check(c *Case, o *obs, res *vrt.Result, want []string) []finding {
+func check(c *Case, o *obs, res *vrt.Result, want []string, want2 ...[]string) []finding {
+	wantOf := func(gi int) string {
+		if gi%2 == 1 && len(want2) > 0 && want2[0] != nil {
+			return want2[0][c.Gs[gi]]
+		}
+		return want[c.Gs[gi]]
+	}
 	var fs []finding
 	p := c.Program
 	for _, f := range res.Faults {
@@ -225,9 +279,9 @@ func check(c *Case, o *obs, res *vrt.Result, want []string) []finding {
 	}
 	for gi, rs := range o.results {
 		for k, r := range rs {
-			if r != want[c.Gs[gi]] {
+			if r != wantOf(gi) {
 				fs = append(fs, finding{p.Prop + "/concurrent/" + p.Name + "/differs-from-evaluation-alone",
-					fmt.Sprintf("template %s (funcs %q) optimize=%v\ngoroutine %d evaluation %d on match %d returned %q, alone it returns %q", p.Template, p.Funcs, c.Optimize, gi, k, c.Gs[gi], r, want[c.Gs[gi]])})
+					fmt.Sprintf("template %s (funcs %q) optimize=%v\ngoroutine %d evaluation %d on match %d returned %q, alone it returns %q (second template, evaluated by odd goroutines: %s)", p.Template, p.Funcs, c.Optimize, gi, k, c.Gs[gi], r, wantOf(gi), p.Template2)})
 			}
 		}
 		if len(rs) != evalsPerGoroutine {
@@ -254,9 +308,9 @@ func slug(s string) string {
 }
 
 func worker(w *runner.W) {
-	bound := 2
+	bound := 3
 	if !w.Quick() {
-		bound = 3
+		bound = 4
 	}
 	var unitNo int64
 	for pi := range programs {
@@ -266,8 +320,15 @@ func worker(w *runner.W) {
 		}
 		w.SetCase(func() any { return Case{Program: p} })
 		want := make([]string, len(matches))
+		var want2 []string
 		for i, m := range matches {
 			want[i] = alone(&p, m)
+		}
+		if p.Template2 != "" {
+			want2 = make([]string, len(matches))
+			for i, m := range matches {
+				want2[i] = alone2(&p, m)
+			}
 		}
 		groups := [][]int{{0, 1}, {1, 0}, {0, 0}, {2, 1}}
 		if !w.Quick() {
@@ -278,7 +339,7 @@ func worker(w *runner.W) {
 				c := &Case{Program: p, Optimize: optimize, Gs: gs}
 				b := bound
 				if len(gs) > 2 {
-					b = 2
+					b = bound - 1
 				}
 				w.SetCase(func() any { return *c })
 				units := mc.Units(b, func(e *mc.Explorer) {
@@ -300,7 +361,7 @@ func worker(w *runner.W) {
 						ex.EndExecution()
 						w.Eval(res.Switches > 1)
 						w.Add("transitions", int64(res.Steps))
-						for _, f := range check(c, o, res, want) {
+						for _, f := range check(c, o, res, want, want2) {
 							cc := *c
 							cc.Vector = ex.Vector()
 							w.Violation(f.sig, f.detail, cc)
@@ -447,8 +508,18 @@ func replay(w *runner.W, raw json.RawMessage) {
 			want[i] = alone(&c.Program, m)
 		}()
 	}
+	var want2 []string
+	if c.Program.Template2 != "" {
+		want2 = make([]string, len(matches))
+		for i, m := range matches {
+			func() {
+				defer func() { recover() }()
+				want2[i] = alone2(&c.Program, m)
+			}()
+		}
+	}
 	o, res := run(replayOf(c.Vector), &c, true)
-	for _, f := range check(&c, o, res, want) {
+	for _, f := range check(&c, o, res, want, want2) {
 		w.Violation(f.sig, f.detail+"\nschedule: "+strings.Join(res.Trace, " "), c)
 	}
 }
@@ -459,7 +530,7 @@ func main() {
 		Properties: []string{"C10", "C17"},
 		Level:      "model_checking",
 		Rule: func(prop, tier string) string {
-			return "one compiled expression per program (C17: @map/@filter/@reduce/@for/@slice/@in with named keys, nested map inside map and inside filter; C10: funcs-file functions with 1-3 arguments, nested calls and missing arguments, the cached time format, mixed constant folding; each compiled with and without optimisation) evaluated twice by each of 2 (thorough: also 3) goroutines on different matches under the controlled runtime; every schedule with at most 2 (quick) / 3 (thorough) deviations, with scheduling points at every context look-up, pool mutex and atomic operation, and the vector-clock race detector on fields and package variables of expressions, stdlib, funcfile and slicepool. Oracle: every evaluation equals the unoptimised evaluation of that match alone. Non-trivial = more than one goroutine switch."
+			return "one compiled expression per program (C17: @map/@filter/@reduce/@for/@slice/@in with named keys, nested map inside map and inside filter; C10: funcs-file functions with 1-3 arguments, nested calls and missing arguments, the cached time format, mixed constant folding; plus pair programs in which the goroutines with an odd index evaluate a SECOND, different expression compiled by the same builder - map vs reduce, nested map vs filter, @for vs map, two funcs-file functions, a funcs function vs builtins: different compiled expressions share the package-level pools; each compiled with and without optimisation) evaluated twice by each of 2 (thorough: also 3) goroutines on different matches under the controlled runtime; every schedule with at most 3 (quick) / 4 (thorough) deviations (one less with 3 goroutines), with scheduling points at every context look-up, pool mutex and atomic operation, and the vector-clock race detector on fields and package variables of expressions, stdlib, funcfile and slicepool. Oracle: every evaluation equals the unoptimised evaluation of that match alone. Non-trivial = more than one goroutine switch."
 		},
 		Assumptions: func(string) []string {
 			return []string{"state captured in closure-local variables is not under the race detector; its corruption is observed through wrong results at the look-up scheduling points"}
